@@ -1,6 +1,6 @@
 import warnings, logging, shutil
 warnings.filterwarnings('ignore'); logging.disable(logging.CRITICAL)
-exec(open('/tmp/proto/repro/eng.py').read().split("e=new_engine()")[0])
+exec(open(__import__('os').path.join(__import__('os').path.dirname(__import__('os').path.abspath(__file__)), 'eng.py')).read().split("e=new_engine()")[0])
 e=new_engine()
 nm=F.create_attribute(enums.AttributeType.NAME, attributes.Name.create('k1', enums.NameType.UNINTERPRETED_TEXT_STRING))
 r=run(e, req([(enums.Operation.CREATE, create_payload(extra=[nm]))], version=(2,0))); print('create', r[0][:3]); uid=r[0][3].unique_identifier
